@@ -244,6 +244,7 @@ fn start_app_and_get_matches() -> clap::ArgMatches<'static> {
         .author(APP_DESCRIPTION)
         .about(APP_ABOUT)
         .setting(clap::AppSettings::NextLineHelp)
+        .setting(clap::AppSettings::StrictUtf8)
         .arg(Arg::with_name("arearef")
             .short("a")
             .long("arearef")
